@@ -881,3 +881,254 @@ Proof.
   cbn [sr_read_all]. destruct (sr_read_no_panic s m) as [[[d e] s'] ->]. cbn [rbind].
   destruct e; [eexists; reflexivity | apply IH].
 Qed.
+
+(* ---- completeness of the demultiplexer: a caller that keeps reading reaches EOF ---- *)
+Lemma stdout_of_cons_out r rest :
+  rtype r =? T_STDERR = false -> stdout_of (r :: rest) = rcontent r ++ stdout_of rest.
+Proof. intros Hr. unfold stdout_of. cbn [filter]. unfold rtype in Hr. rewrite Hr. reflexivity. Qed.
+
+Lemma sr_read_all_complete sizes : forall recs tail b se acc d e s',
+  Forall valid_rec recs ->
+  (forall m, In m sizes -> (1 <= m)%nat) ->
+  (length b + length (stdout_of recs) + length recs < length sizes)%nat ->
+  sr_read_all (mk_sr (wire_of recs ++ enc_rec end_rec ++ tail) b se) sizes acc = Ok (d, e, s') ->
+  e = Some REOF.
+Proof.
+  induction sizes as [|m sizes IH]; intros recs tail b se acc d e s' Hv Hm Hpot H.
+  - simpl in Hpot. lia.
+  - assert (Hm1 : (1 <= m)%nat) by (apply Hm; left; reflexivity).
+    assert (Hm' : forall m0, In m0 sizes -> (1 <= m0)%nat) by (intros; apply Hm; right; assumption).
+    cbn [sr_read_all] in H. unfold sr_read in H.
+    destruct m as [|m0]; [lia|]. set (m := S m0) in *.
+    cbn [mk_sr s_buf s_conn s_stderr] in H.
+    destruct b as [|x b'].
+    + destruct (split_first_out recs) as [Hall | (errs & r & rest & -> & Hall & Hr)].
+      * destruct (next_out_all_stderr recs (S (length (wire_of recs ++ enc_rec end_rec ++ tail))) tail se Hv Hall) as [rest' Hn].
+        { rewrite app_length. pose proof (wire_of_len recs). lia. }
+        rewrite Hn in H. cbn [rbind] in H. injection H as <- <- <-. reflexivity.
+      * apply Forall_app in Hv as [Hve Hvr]. inversion Hvr as [|? ? Hvr1 Hvr2]; subst.
+        rewrite (next_out_found errs _ r rest (enc_rec end_rec ++ tail) se Hve Hall Hvr1 Hr) in H.
+        2:{ rewrite app_length. pose proof (wire_of_len (errs ++ r :: rest)). rewrite app_length in *. simpl length in *. lia. }
+        cbn [rbind] in H.
+        change ({| s_conn := wire_of rest ++ enc_rec end_rec ++ tail; s_buf := skipn m (rcontent r);
+                   s_stderr := rev (map rcontent errs) ++ se |})
+          with (mk_sr (wire_of rest ++ enc_rec end_rec ++ tail) (skipn m (rcontent r)) (rev (map rcontent errs) ++ se)) in H.
+        eapply IH in H; eauto.
+        rewrite stdout_of_app, (stdout_of_stderr errs Hall), stdout_of_cons_out in Hpot by exact Hr.
+        cbn [app length] in Hpot. rewrite !app_length in Hpot. cbn [length] in Hpot.
+        rewrite skipn_length. lia.
+    + cbn [rbind] in H.
+      change ({| s_conn := wire_of recs ++ enc_rec end_rec ++ tail; s_buf := skipn m (x :: b'); s_stderr := se |})
+        with (mk_sr (wire_of recs ++ enc_rec end_rec ++ tail) (skipn m (x :: b')) se) in H.
+      eapply IH in H; eauto.
+      rewrite skipn_length. cbn [length] in *. lia.
+Qed.
+
+Lemma demux_complete recs tail sizes d e s' :
+  Forall valid_rec recs ->
+  (forall m, In m sizes -> (1 <= m)%nat) ->
+  (length (stdout_of recs) + length recs < length sizes)%nat ->
+  sr_read_all (sr_init (wire_of recs ++ enc_rec end_rec ++ tail)) sizes [] = Ok (d, e, s') ->
+  e = Some REOF /\ d = stdout_of recs /\ stderr_of s' = contents_of T_STDERR recs.
+Proof.
+  intros Hv Hm Hpot H.
+  assert (He : e = Some REOF).
+  { change (sr_init ?c) with (mk_sr c [] []) in H. eapply sr_read_all_complete in H; eauto. }
+  apply demux_exact in H; [|exact Hv].
+  destruct H as (_ & (orest & Ho & Hoe) & (erest & Hr & Hre)).
+  rewrite (Hoe He), app_nil_r in Ho. rewrite (Hre He), app_nil_r in Hr. auto.
+Qed.
+
+(* ---- buildEnv: every header arrives as HTTP_*, configured entries arrive ---- *)
+Lemma find_app {A} (f : A -> bool) a b :
+  find f (a ++ b) = match find f a with Some x => Some x | None => find f b end.
+Proof. induction a as [|x a IH]; [reflexivity|]. cbn [app find]. destruct (f x); auto. Qed.
+
+Lemma find_none_iff {A} (f : A -> bool) l : find f l = None <-> forall x, In x l -> f x = false.
+Proof.
+  split; [apply find_none|]. induction l as [|x l IH]; intros H; [reflexivity|].
+  cbn [find]. rewrite (H x (or_introl eq_refl)). apply IH. intros y Hy. apply H. right; exact Hy.
+Qed.
+
+Lemma env_lookup_app k a b :
+  env_lookup k (a ++ b) = match env_lookup k b with Some v => Some v | None => env_lookup k a end.
+Proof.
+  unfold env_lookup. rewrite rev_app_distr, find_app.
+  destruct (find (fun kv => beq (fst kv) k) (rev b)); reflexivity.
+Qed.
+
+Lemma env_lookup_none k l : (forall kv, In kv l -> beq (fst kv) k = false) -> env_lookup k l = None.
+Proof.
+  intros H. unfold env_lookup.
+  assert (find (fun kv => beq (fst kv) k) (rev l) = None) as ->; [|reflexivity].
+  apply find_none_iff. intros x Hx. apply H. apply in_rev. exact Hx.
+Qed.
+
+Lemma env_lookup_unique k v l :
+  In (k, v) l -> (forall kv, In kv l -> fst kv = k -> kv = (k, v)) -> env_lookup k l = Some v.
+Proof.
+  intros Hin Hu. unfold env_lookup.
+  destruct (find (fun kv => beq (fst kv) k) (rev l)) as [kv|] eqn:Hf.
+  - apply find_some in Hf as [Hi Hb]. apply beq_eq in Hb. apply in_rev in Hi.
+    rewrite (Hu kv Hi Hb). reflexivity.
+  - exfalso. rewrite find_none_iff in Hf. specialize (Hf (k, v)). cbn [fst] in Hf.
+    rewrite beq_refl in Hf. assert (In (k, v) (rev l)) by (apply -> in_rev; exact Hin). specialize (Hf H). discriminate.
+Qed.
+
+Definition is_http (k : bytes) : bool := has_prefix k (bs "HTTP_").
+
+Lemma env_name_http n : is_http (env_name n) = true.
+Proof. unfold is_http, env_name. apply has_prefix_app. eexists; reflexivity. Qed.
+
+Lemma beq_false_of_http a k : is_http k = true -> is_http a = false -> beq a k = false.
+Proof.
+  intros Hk Ha. destruct (beq a k) eqn:E; [|reflexivity]. apply beq_eq in E. subst. congruence.
+Qed.
+
+Lemma meth_of_keys q kv : In kv (meth_of q) -> mem (fst kv) METHOD_VARS = true.
+Proof.
+  unfold meth_of.
+  destruct (beq (q_method q) (bs "HEAD")); [|destruct (beq (q_method q) (bs "GET")); [|destruct (beq (q_method q) (bs "OPTIONS"))]];
+    cbn [In]; intros H; repeat (destruct H as [<-|H]; [vm_compute; reflexivity|]); contradiction.
+Qed.
+
+Lemma env_list_shape cs sv r q f el :
+  env_list cs sv r q f = Ok el ->
+  exists pre, el = pre ++ r_env r ++ hdr_pairs q ++ meth_of q.
+Proof.
+  unfold env_list. destruct (split_at cs r f) as [dp|]; [|discriminate].
+  intros H. exists (env_base sv r q (fst dp) (snd dp)).
+  change (Ok (env_base sv r q (fst dp) (snd dp) ++ r_env r ++ hdr_pairs q ++ meth_of q) = Ok el) in H. congruence.
+Qed.
+
+Lemma env_headers_arrive cs sv r q f el n vals :
+  env_list cs sv r q f = Ok el ->
+  NoDup (map (fun kv => env_name (fst kv)) (q_headers q)) ->
+  In (n, vals) (q_headers q) ->
+  env_lookup (env_name n) el = Some (join (bs ", ") vals).
+Proof.
+  intros Hel Hnd Hin. apply env_list_shape in Hel as [pre ->].
+  rewrite !env_lookup_app.
+  rewrite (env_lookup_none _ (meth_of q)).
+  2:{ intros kv Hkv. apply meth_of_keys in Hkv. apply beq_false_of_http; [apply env_name_http|].
+      unfold METHOD_VARS, mem in Hkv. cbn [existsb] in Hkv.
+      repeat (apply orb_true_iff in Hkv as [Hkv|Hkv]; [apply beq_eq in Hkv; rewrite Hkv; vm_compute; reflexivity|]).
+      discriminate. }
+  rewrite (env_lookup_unique (env_name n) (join (bs ", ") vals) (hdr_pairs q)); [reflexivity | |].
+  - unfold hdr_pairs. apply in_map_iff. exists (n, vals). auto.
+  - intros kv Hkv Hk. unfold hdr_pairs in Hkv. apply in_map_iff in Hkv as ([n' vals'] & <- & Hin').
+    cbn [fst snd] in *.
+    assert ((n', vals') = (n, vals)) as E; [|injection E as -> ->; reflexivity].
+    clear - Hnd Hin Hin' Hk. induction (q_headers q) as [|h l IH]; [contradiction|].
+    cbn [map] in Hnd. inversion Hnd as [|? ? Hni Hnd']; subst.
+    destruct Hin as [->|Hin], Hin' as [->|Hin']; auto.
+    + exfalso. apply Hni. apply in_map_iff. exists (n', vals'). cbn [fst]. auto.
+    + exfalso. apply Hni. apply in_map_iff. exists (n, vals). cbn [fst]. auto.
+Qed.
+
+(* a configured env entry arrives (last one of a name wins) unless a header or a per-method
+   variable has the same name *)
+Lemma env_entries_arrive cs sv r q f el k :
+  env_list cs sv r q f = Ok el ->
+  mem k (map (fun kv => env_name (fst kv)) (q_headers q)) = false ->
+  mem k METHOD_VARS = false ->
+  forall v, env_lookup k (r_env r) = Some v -> env_lookup k el = Some v.
+Proof.
+  intros Hel Hh Hm v Hv. apply env_list_shape in Hel as [pre ->].
+  rewrite !env_lookup_app.
+  rewrite (env_lookup_none k (meth_of q)).
+  2:{ intros kv Hkv. apply meth_of_keys in Hkv. destruct (beq (fst kv) k) eqn:E; [|reflexivity].
+      apply beq_eq in E. rewrite E in Hkv. congruence. }
+  rewrite (env_lookup_none k (hdr_pairs q)).
+  2:{ intros kv Hkv. unfold hdr_pairs in Hkv. apply in_map_iff in Hkv as (h & <- & Hin). cbn [fst].
+      destruct (beq (env_name (fst h)) k) eqn:E; [|reflexivity]. apply beq_eq in E.
+      exfalso. unfold mem in Hh. rewrite <- not_true_iff_false in Hh. apply Hh.
+      apply existsb_exists. exists (env_name (fst h)). split; [apply in_map_iff; exists h; auto|].
+      rewrite E. apply beq_refl. }
+  rewrite Hv. reflexivity.
+Qed.
+
+(* ---- the response head ---- *)
+Definition conf_field (f : bytes * bytes) : Prop :=
+  ~ In 13 (fst f) /\ ~ In 58 (fst f) /\ ~ In 13 (snd f) /\ (forall r, snd f <> 32 :: r).
+
+Lemma split_line_app line : forall rest cur,
+  ~ In 13 line -> split_line (line ++ 13 :: 10 :: rest) cur = Some (rev cur ++ line, rest).
+Proof.
+  induction line as [|c line IH]; intros rest cur Hn.
+  - cbn. rewrite app_nil_r. reflexivity.
+  - cbn [app split_line].
+    assert (c =? 13 = false) as -> by (apply N.eqb_neq; intros ->; apply Hn; left; reflexivity).
+    cbn [andb]. rewrite IH by (intros H; apply Hn; right; exact H).
+    cbn [rev]. rewrite <- app_assoc. reflexivity.
+Qed.
+
+Lemma take_until_app c a rest : ~ In c a -> take_until c (a ++ c :: rest) = a.
+Proof.
+  induction a as [|x a IH]; intros Hn; cbn [app take_until].
+  - rewrite N.eqb_refl. reflexivity.
+  - assert (x =? c = false) as -> by (apply N.eqb_neq; intros ->; apply Hn; left; reflexivity).
+    f_equal. apply IH. intros H; apply Hn; right; exact H.
+Qed.
+
+Lemma drop_sp_value v : (forall r, v <> 32 :: r) -> drop_sp (32 :: v) = v.
+Proof.
+  intros H. cbn [drop_sp]. rewrite N.eqb_refl. destruct v as [|c v']; [reflexivity|].
+  cbn [drop_sp]. destruct (c =? 32) eqn:E; [|reflexivity].
+  apply N.eqb_eq in E. subst. exfalso. eapply H. reflexivity.
+Qed.
+
+Lemma parse_head_f_render fields : forall fuel acc body,
+  Forall conf_field fields -> (length fields < fuel)%nat ->
+  parse_head_f fuel (render_head fields ++ body) acc = Some (rev acc ++ fields, body).
+Proof.
+  induction fields as [|[n v] fields IH]; intros fuel acc body Hc Hfuel.
+  - destruct fuel; [simpl in Hfuel; lia|]. cbn. rewrite app_nil_r. reflexivity.
+  - destruct fuel; [simpl in Hfuel; lia|].
+    inversion Hc as [|? ? (Hn13 & Hn58 & Hv13 & Hvsp) Hc']; subst. cbn [fst snd] in *.
+    unfold render_head. cbn [map concat fst snd parse_head_f]. unfold CRLF.
+    match goal with |- context [split_line ?X []] =>
+      replace X with ((n ++ 58 :: 32 :: v) ++ 13 :: 10 :: (render_head fields ++ body)) end.
+    2:{ unfold render_head, CRLF. repeat rewrite <- app_assoc. reflexivity. }
+    rewrite split_line_app.
+    2:{ intros H. apply in_app_or in H as [H|[H|[H|H]]]; try discriminate; auto. }
+    cbn [rev app].
+    destruct (n ++ 58 :: 32 :: v) as [|x l] eqn:Hline.
+    { destruct n; discriminate. }
+    rewrite <- Hline. clear x l Hline.
+    rewrite take_until_app by exact Hn58.
+    replace (skipn (S (length n)) (n ++ 58 :: 32 :: v)) with (32 :: v).
+    2:{ change (n ++ 58 :: 32 :: v) with (n ++ [58] ++ 32 :: v). rewrite app_assoc.
+        symmetry. apply skipn_exact'. rewrite app_length. simpl. lia. }
+    rewrite drop_sp_value by exact Hvsp.
+    rewrite IH; [|exact Hc' | simpl length in Hfuel; lia].
+    cbn [rev]. rewrite <- app_assoc. reflexivity.
+Qed.
+
+Lemma render_head_len fields : (length fields <= length (render_head fields))%nat.
+Proof.
+  unfold render_head. rewrite app_length. induction fields as [|f fields IH]; [simpl; lia|].
+  cbn [map concat]. rewrite !app_length in *. simpl length in *. lia.
+Qed.
+
+Lemma parse_head_render fields body :
+  Forall conf_field fields -> parse_head (render_head fields ++ body) = Some (fields, body).
+Proof.
+  intros Hc. unfold parse_head. rewrite parse_head_f_render; auto.
+  rewrite app_length. pose proof (render_head_len fields). lia.
+Qed.
+
+(* the whole response path at model level: whatever the framing, the parsed head and the body
+   are the responder's, and stderr is complete on the side *)
+Lemma response_exact fields body recs tail sizes d e s' :
+  Forall conf_field fields -> Forall valid_rec recs ->
+  stdout_of recs = render_head fields ++ body ->
+  (forall m, In m sizes -> (1 <= m)%nat) ->
+  (length (stdout_of recs) + length recs < length sizes)%nat ->
+  sr_read_all (sr_init (wire_of recs ++ enc_rec end_rec ++ tail)) sizes [] = Ok (d, e, s') ->
+  parse_head d = Some (fields, body) /\ stderr_of s' = contents_of T_STDERR recs /\ e = Some REOF.
+Proof.
+  intros Hc Hv Hout Hm Hlen H.
+  apply demux_complete in H; auto. destruct H as (-> & -> & ->).
+  rewrite Hout. split; [apply parse_head_render; exact Hc | auto].
+Qed.
